@@ -667,6 +667,11 @@ def run_schedule(b, on_capture=None):
                 b.failrun_outcome = 'accepted'
             except Exception as ex:
                 b.failrun_outcome = type(ex).__name__
+        elif o == 'twin':
+            # a second Powertrain object is assembled from the SAME motor while the first one holds a history (the user wants a
+            # second handle, e.g. for another solver): constructing it must not disturb what is recorded
+            b.twin = g().Powertrain(motor=b.motor)
+            b.twins = getattr(b, 'twins', 0) + 1
         elif o == 'report':
             # between two runs the user reports the live state in other units: the quantities held by the elements' public
             # attributes (which are also the last recorded samples) are converted IN PLACE; magnitudes are unchanged.
